@@ -41,7 +41,7 @@ theorem forall_append_one {α} {P : α → Prop} {l : List α} {a : α}
 
 /-! ## the at-most-once invariant -/
 
-/-- per-call invariant (valid as long as bindReply never bound an already bound/completed call). -/
+/-- per-call invariant. -/
 structure CInv (c : Call) : Prop where
   le1 : c.doneCount ≤ 1
   sends : c.chanSends = c.doneCount
@@ -52,12 +52,13 @@ structure CInv (c : Call) : Prop where
   hpre : c.mu = .hPre → c.doneCount = 0
   why : c.doneCount = 1 → c.hasReply = true ∨ c.stat ≠ 0
   cap1 : 1 ≤ c.cap
-  bound : (c.mu = .hPre ∨ c.mu = .hPost ∨ c.mu = .reader) → c.hasReply = true
-  replied : c.hasReply = true → 1 ≤ c.doneCount ∨ c.mu = .reader ∨ c.mu = .hPre
+  bound : (c.mu = .hPre ∨ c.mu = .hPost) → c.hasReply = true
+  replied : c.hasReply = true → 1 ≤ c.doneCount ∨ c.mu = .hPre
   nohr : c.pc ≠ .returned → c.hasReply = false
+  nord : c.mu ≠ .reader
 
 def AInv (s : State) : Prop :=
-  s.rebound = false → s.crashed = false ∧ ∀ (i : Nat) (c : Call), s.calls[i]? = some c → CInv c
+  s.crashed = false ∧ ∀ (i : Nat) (c : Call), s.calls[i]? = some c → CInv c
 
 theorem complete_first {c : Call} (h : c.doneCount = 0) :
     complete c = some ({ c with inTable := false, chanSends := c.chanSends + 1, doneCount := 1 }, false) := by
@@ -65,331 +66,469 @@ theorem complete_first {c : Call} (h : c.doneCount = 0) :
 
 theorem ainv_init : AInv State.init := by
   unfold AInv
-  intro _
   refine ⟨rfl, ?_⟩
   intro i c h
   simp [State.init] at h
 
 /-- steps that replace call `i` by `c'`. -/
 theorem ainv_upd {s t : State} {i : Nat} {c c' : Call} (h : AInv s)
-    (hr : t.rebound = false → s.rebound = false)
     (hci : s.calls[i]? = some c) (hcalls : t.calls = s.calls.set i c')
-    (hc' : t.rebound = false → s.crashed = false → CInv c → t.crashed = false ∧ CInv c') : AInv t := by
+    (hc' : s.crashed = false → CInv c → t.crashed = false ∧ CInv c') : AInv t := by
   unfold AInv at h ⊢
-  intro hrt
-  obtain ⟨hcr, hall⟩ := h (hr hrt)
-  obtain ⟨h1, h2⟩ := hc' hrt hcr (hall i c hci)
+  obtain ⟨hcr, hall⟩ := h
+  obtain ⟨h1, h2⟩ := hc' hcr (hall i c hci)
   refine ⟨h1, ?_⟩
   rw [hcalls]
   exact forall_set hall h2
 
 /-- steps that leave the calls alone. -/
-theorem ainv_same {s t : State} (h : AInv s) (hr : t.rebound = false → s.rebound = false)
+theorem ainv_same {s t : State} (h : AInv s)
     (hcalls : t.calls = s.calls) (hcr : t.crashed = s.crashed) : AInv t := by
   unfold AInv at h ⊢
-  intro hrt
-  obtain ⟨h1, hall⟩ := h (hr hrt)
+  obtain ⟨h1, hall⟩ := h
   exact ⟨hcr ▸ h1, hcalls ▸ hall⟩
 
-
-theorem ainv_step {s t : State} {l : Label} (h : AInv s) (hf : fire s l = some t) : AInv t := by
+theorem ainv_issue {s t : State} (veto ctxDone tooBig bytesRes : Bool) (cap : Nat) (h : AInv s) (hf : fire s (.issue veto ctxDone tooBig bytesRes cap) = some t) : AInv t := by
   unfold fire at hf
   split at hf
   · cases hf
   rename_i hcrash
-  cases l with
-  | issue veto ctxDone wpanic bytesRes cap =>
-    simp only [] at hf
+  simp only [] at hf
+  split at hf
+  · cases hf
+  rename_i hcap
+  cases hf
+  unfold AInv at h ⊢
+  obtain ⟨h1, hall⟩ := h
+  refine ⟨h1, forall_append_one hall ?_⟩
+  constructor <;> simp [Call.fresh] <;> omega
+
+theorem ainv_frame {s t : State} (f : Frame) (h : AInv s) (hf : fire s (.frame f) = some t) : AInv t := by
+  unfold fire at hf
+  split at hf
+  · cases hf
+  rename_i hcrash
+  simp only [] at hf; cases hf; exact ainv_same h rfl rfl
+
+theorem ainv_lose {s t : State} (h : AInv s) (hf : fire s .lose = some t) : AInv t := by
+  unfold fire at hf
+  split at hf
+  · cases hf
+  rename_i hcrash
+  simp only [] at hf; cases hf; exact ainv_same h rfl rfl
+
+theorem ainv_close {s t : State} (h : AInv s) (hf : fire s .close = some t) : AInv t := by
+  unfold fire at hf
+  split at hf
+  · cases hf
+  rename_i hcrash
+  simp only [] at hf
+  split at hf
+  · split at hf <;> (cases hf; exact ainv_same h rfl rfl)
+  · cases hf; exact h
+
+theorem ainv_store {s t : State} (i : Nat) (h : AInv s) (hf : fire s (.store i) = some t) : AInv t := by
+  unfold fire at hf
+  split at hf
+  · cases hf
+  rename_i hcrash
+  simp only [] at hf
+  split at hf
+  · rename_i c hci
+    split at hf
+    · rename_i hpc
+      cases hf
+      refine ainv_upd h hci rfl ?_
+      intro hcr ci
+      obtain ⟨a1, a2, a3, a4, a5, a6, a7, a8, a9, a10, a11, a12, a13⟩ := ci
+      refine ⟨hcr, ?_⟩
+      constructor <;> (try simp_all) <;> (try omega)
+    · cases hf
+  · cases hf
+
+theorem ainv_prewrite {s t : State} (i : Nat) (h : AInv s) (hf : fire s (.prewrite i) = some t) : AInv t := by
+  unfold fire at hf
+  split at hf
+  · cases hf
+  rename_i hcrash
+  simp only [] at hf
+  split at hf
+  · rename_i c hci
+    split at hf
+    · rename_i hpc
+      cases hf
+      refine ainv_upd h hci rfl ?_
+      intro hcr ci
+      obtain ⟨a1, a2, a3, a4, a5, a6, a7, a8, a9, a10, a11, a12, a13⟩ := ci
+      refine ⟨hcr, ?_⟩
+      split <;> (constructor <;> (try simp_all) <;> (try omega))
+    · cases hf
+  · cases hf
+
+theorem ainv_write {s t : State} (i : Nat) (o : WOut) (h : AInv s) (hf : fire s (.write i o) = some t) : AInv t := by
+  unfold fire at hf
+  split at hf
+  · cases hf
+  rename_i hcrash
+  simp only [] at hf
+  split at hf
+  · rename_i c hci
+    have key : ∀ (s' : State) (c' : Call), s'.crashed = s.crashed → s'.calls = s.calls →
+        c.pc = .writing → (c' = { c with pc := .written } ∨
+          ∃ code, code ≠ 0 ∧ c' = { c with pc := .failing, stat := code }) → AInv (s'.setCall i c') := by
+      intro s' c' e2 e3 hpc hc'
+      refine ainv_upd (c' := c') h hci (by simp [State.setCall, e3]) ?_
+      intro hcr ci
+      obtain ⟨a1, a2, a3, a4, a5, a6, a7, a8, a9, a10, a11, a12, a13⟩ := ci
+      refine ⟨by simpa [State.setCall, e2] using hcr, ?_⟩
+      rcases hc' with rfl | ⟨code, hcode, rfl⟩ <;> (constructor <;> (try simp_all) <;> (try omega))
     split at hf
     · cases hf
-    rename_i hcap
-    cases hf
-    unfold AInv at h ⊢
-    intro hrt
-    obtain ⟨h1, hall⟩ := h hrt
-    refine ⟨h1, forall_append_one hall ?_⟩
-    constructor <;> simp [Call.fresh] <;> omega
-  | frame f => simp only [] at hf; cases hf; exact ainv_same h id rfl rfl
-  | lose => simp only [] at hf; cases hf; exact ainv_same h id rfl rfl
-  | close =>
-    simp only [] at hf
-    split at hf
-    · split at hf <;> (cases hf; exact ainv_same h id rfl rfl)
-    · cases hf; exact h
-  | store i =>
-    simp only [] at hf
-    split at hf
-    · rename_i c hci
-      split at hf
-      · rename_i hpc
-        cases hf
-        refine ainv_upd h id hci rfl ?_
-        intro _ hcr ci
-        obtain ⟨a1, a2, a3, a4, a5, a6, a7, a8, a9, a10, a11, a12⟩ := ci
-        refine ⟨hcr, ?_⟩
-        constructor <;> (try simp_all) <;> (try omega)
-      · cases hf
-    · cases hf
-  | prewrite i =>
-    simp only [] at hf
-    split at hf
-    · rename_i c hci
-      split at hf
-      · rename_i hpc
-        cases hf
-        refine ainv_upd h id hci rfl ?_
-        intro _ hcr ci
-        obtain ⟨a1, a2, a3, a4, a5, a6, a7, a8, a9, a10, a11, a12⟩ := ci
-        refine ⟨hcr, ?_⟩
-        split <;> (constructor <;> (try simp_all) <;> (try omega))
-      · cases hf
-    · cases hf
-  | write i o =>
-    simp only [] at hf
-    split at hf
-    · rename_i c hci
-      have key : ∀ (s' : State) (c' : Call), s'.rebound = s.rebound → s'.crashed = s.crashed → s'.calls = s.calls →
-          c.pc = .writing → (c' = { c with pc := .written } ∨ c' = { c with pc := .written, nilRet := true } ∨
-            ∃ code, code ≠ 0 ∧ c' = { c with pc := .failing, stat := code }) → AInv (s'.setCall i c') := by
-        intro s' c' e1 e2 e3 hpc hc'
-        refine ainv_upd (c' := c') h (fun x => by simpa [State.setCall, e1] using x) hci (by simp [State.setCall, e3]) ?_
-        intro _ hcr ci
-        obtain ⟨a1, a2, a3, a4, a5, a6, a7, a8, a9, a10, a11, a12⟩ := ci
-        refine ⟨by simpa [State.setCall, e2] using hcr, ?_⟩
-        rcases hc' with rfl | rfl | ⟨code, hcode, rfl⟩ <;> (constructor <;> (try simp_all) <;> (try omega))
-      split at hf
-      · cases hf
-      rename_i hpc
-      have hpc' : c.pc = .writing := by simpa using hpc
-      split at hf
-      · split at hf
-        · cases hf; exact key s _ rfl rfl rfl hpc' (Or.inr (Or.inr ⟨102, by decide, rfl⟩))
-        · cases hf
-      split at hf
-      · split at hf
-        · cases hf; exact key s _ rfl rfl rfl hpc' (Or.inr (Or.inr ⟨104, by decide, rfl⟩))
-        · cases hf
-      split at hf
-      · cases hf; exact key s _ rfl rfl rfl hpc' (Or.inl rfl)
-      · cases hf; exact key _ _ rfl rfl rfl hpc' (Or.inr (Or.inr ⟨104, by decide, rfl⟩))
-      · rename_i code
-        split at hf
-        · rename_i hcode
-          cases hf
-          refine key s _ rfl rfl rfl hpc' (Or.inr (Or.inr ⟨code, ?_, rfl⟩))
-          simp at hcode; omega
-        · cases hf
-      · split at hf
-        · cases hf; exact key s _ rfl rfl rfl hpc' (Or.inr (Or.inl rfl))
-        · cases hf
-      · cases hf
-    · cases hf
-  | failDone i =>
-    simp only [] at hf
-    split at hf
-    · rename_i c hci
-      split at hf
-      · rename_i hpc
-        unfold AInv
-        intro hrt
-        have hrs : s.rebound = false := by
-          split at hf
-          · cases hf; simpa [State.setCall] using hrt
-          · cases hf
-        obtain ⟨hcr, hall⟩ := h hrs
-        have ci := hall i c hci
-        have hd0 : c.doneCount = 0 := ci.pre (Or.inr (Or.inr (Or.inr hpc)))
-        rw [complete_first hd0] at hf
-        cases hf
-        refine ⟨rfl, ?_⟩
-        simp only [State.setCall]
-        refine forall_set hall ?_
-        obtain ⟨a1, a2, a3, a4, a5, a6, a7, a8, a9, a10, a11, a12⟩ := ci
-        constructor <;> (try simp_all) <;> (try omega)
-      · cases hf
-    · cases hf
-  | unlock i =>
-    simp only [] at hf
-    split at hf
-    · rename_i c hci
-      split at hf
-      · rename_i hpc
-        cases hf
-        refine ainv_upd h id hci rfl ?_
-        intro _ hcr ci
-        obtain ⟨a1, a2, a3, a4, a5, a6, a7, a8, a9, a10, a11, a12⟩ := ci
-        refine ⟨hcr, ?_⟩
-        rcases hpc with hpc | hpc <;> (constructor <;> (try simp_all) <;> (try omega))
-      · cases hf
-    · cases hf
-  | read =>
-    simp only [] at hf
+    rename_i hpc
+    have hpc' : c.pc = .writing := by simpa using hpc
     split at hf
     · split at hf
-      · cases hf; exact ainv_same h id rfl rfl
+      · cases hf; exact key s _ rfl rfl hpc' (Or.inr ⟨102, by decide, rfl⟩)
+      · cases hf
+    split at hf
+    · split at hf
+      · cases hf; exact key s _ rfl rfl hpc' (Or.inr ⟨104, by decide, rfl⟩)
+      · cases hf
+    split at hf
+    · split at hf
+      · cases hf; exact key s _ rfl rfl hpc' (Or.inr ⟨104, by decide, rfl⟩)
+      · cases hf
+    split at hf
+    · cases hf; exact key s _ rfl rfl hpc' (Or.inl rfl)
+    · cases hf; exact key _ _ rfl rfl hpc' (Or.inr ⟨104, by decide, rfl⟩)
+    · rename_i code
+      split at hf
+      · rename_i hcode
+        cases hf
+        refine key s _ rfl rfl hpc' (Or.inr ⟨code, ?_, rfl⟩)
+        simp at hcode; omega
+      · cases hf
+    · cases hf
+  · cases hf
+
+theorem ainv_failDone {s t : State} (i : Nat) (h : AInv s) (hf : fire s (.failDone i) = some t) : AInv t := by
+  unfold fire at hf
+  split at hf
+  · cases hf
+  rename_i hcrash
+  simp only [] at hf
+  split at hf
+  · rename_i c hci
+    split at hf
+    · rename_i hpc
+      unfold AInv
+      obtain ⟨hcr, hall⟩ := h
+      have ci := hall i c hci
+      have hd0 : c.doneCount = 0 := ci.pre (Or.inr (Or.inr (Or.inr hpc)))
+      rw [complete_first hd0] at hf
+      cases hf
+      refine ⟨rfl, ?_⟩
+      simp only [State.setCall]
+      refine forall_set hall ?_
+      obtain ⟨a1, a2, a3, a4, a5, a6, a7, a8, a9, a10, a11, a12, a13⟩ := ci
+      constructor <;> (try simp_all) <;> (try omega)
+    · cases hf
+  · cases hf
+
+theorem ainv_unlock {s t : State} (i : Nat) (h : AInv s) (hf : fire s (.unlock i) = some t) : AInv t := by
+  unfold fire at hf
+  split at hf
+  · cases hf
+  rename_i hcrash
+  simp only [] at hf
+  split at hf
+  · rename_i c hci
+    split at hf
+    · rename_i hpc
+      cases hf
+      refine ainv_upd h hci rfl ?_
+      intro hcr ci
+      obtain ⟨a1, a2, a3, a4, a5, a6, a7, a8, a9, a10, a11, a12, a13⟩ := ci
+      refine ⟨hcr, ?_⟩
+      rcases hpc with hpc | hpc <;> (constructor <;> (try simp_all) <;> (try omega))
+    · cases hf
+  · cases hf
+
+theorem ainv_read {s t : State} (h : AInv s) (hf : fire s .read = some t) : AInv t := by
+  unfold fire at hf
+  split at hf
+  · cases hf
+  rename_i hcrash
+  simp only [] at hf
+  split at hf
+  · split at hf
+    · cases hf; exact ainv_same h rfl rfl
+    · simp only [State.spawnOther] at hf
+      split at hf <;> (cases hf; exact ainv_same h rfl rfl)
+    · split at hf
+      · cases hf; exact ainv_same h rfl rfl
       · simp only [State.spawnOther] at hf
-        split at hf <;> (cases hf; exact ainv_same h id rfl rfl)
-      · split at hf
-        · cases hf; exact ainv_same h id rfl rfl
-        · simp only [State.spawnOther] at hf
-          split at hf <;> (cases hf; exact ainv_same h id rfl rfl)
-    · cases hf
-  | bind =>
-    simp only [] at hf
+        split at hf <;> (cases hf; exact ainv_same h rfl rfl)
+  · cases hf
+
+theorem ainv_bind {s t : State} (h : AInv s) (hf : fire s .bind = some t) : AInv t := by
+  unfold fire at hf
+  split at hf
+  · cases hf
+  rename_i hcrash
+  simp only [] at hf
+  split at hf
+  · rename_i i dec rstat hrpc
     split at hf
-    · rename_i i dec rstat hrpc
-      split at hf
-      · rename_i c hci
-        by_cases hmu' : c.mu ≠ .free
-        · rw [if_pos hmu'] at hf; cases hf
-        rw [if_neg hmu'] at hf
-        have hmu' : c.mu = .free := by simpa using hmu'
-        by_cases hd : ((if c.bytesRes = true then Dec.ok else dec) = Dec.errNil ∨
-            (if c.bytesRes = true then Dec.ok else dec) = Dec.panic) ∨ s.status.goon = false <;>
-        (first | rw [if_pos hd] at hf | rw [if_neg hd] at hf) <;>
-        ( cases hf
-          refine ainv_upd h (fun x => ?_) hci rfl ?_
-          · simp [State.setCall] at x; exact x.1.1
-          · intro hrt hcr ci
-            simp [State.setCall] at hrt
-            obtain ⟨a1, a2, a3, a4, a5, a6, a7, a8, a9, a10, a11, a12⟩ := ci
-            refine ⟨by simpa [State.setCall] using hcr, ?_⟩
-            have hd : c.doneCount = 0 := by omega
-            constructor <;> (try simp_all) <;> (try omega) )
-      · cases hf
-    · cases hf
-  | readerEof =>
-    simp only [] at hf
-    split at hf
-    · split at hf
-      · cases hf; exact ainv_same h id rfl rfl
-      · cases hf
-    · cases hf
-  | discLoad =>
-    simp only [] at hf
-    split at hf
-    · split at hf <;> (cases hf; exact ainv_same h id rfl rfl)
-    · cases hf
-  | discStore =>
-    simp only [] at hf
-    split at hf
-    · cases hf; exact ainv_same h id rfl rfl
-    · cases hf
-  | discCtxWait todo0 =>
-    simp only [] at hf
-    split at hf
-    · split at hf
-      · cases hf; exact ainv_same h id rfl rfl
-      · cases hf
-    · cases hf
-  | discPick =>
-    simp only [] at hf
-    split at hf
-    · cases hf; exact ainv_same h id rfl rfl
-    · split at hf
-      · split at hf <;> (cases hf; exact ainv_same h id rfl rfl)
-      · cases hf; exact ainv_same h id rfl rfl
-    · cases hf
-  | discVisit =>
-    simp only [] at hf
-    split at hf
-    · rename_i act i todo hrpc
-      split at hf
-      · rename_i c hci
+    · rename_i c hci
+      by_cases hmu' : c.mu ≠ .free
+      · rw [if_pos hmu'] at hf; cases hf
+      rw [if_neg hmu'] at hf
+      have hmu' : c.mu = .free := by simpa using hmu'
+      by_cases hre : c.hasReply = true ∨ 1 ≤ c.doneCount
+      · rw [if_pos hre] at hf
+        simp only [State.spawnOther] at hf
+        split at hf <;> (cases hf; exact ainv_same h rfl rfl)
+      rw [if_neg hre] at hf
+      have hnr : c.hasReply = false := by
+        cases hh : c.hasReply with
+        | true => exact absurd (Or.inl hh) hre
+        | false => rfl
+      have hd0 : c.doneCount = 0 := by omega
+      by_cases hd : (effDec c dec = Dec.errNil ∨ effDec c dec = Dec.panic) ∨ s.status.goon = false
+      · rw [if_pos hd] at hf
+        unfold AInv
+        obtain ⟨hcr, hall⟩ := h
+        have ci := hall i c hci
         split at hf
-        · cases hf
-        rename_i hmu
-        have hmu' : c.mu = .free := by simpa using hmu
-        split at hf
-        · rename_i hg
-          unfold AInv
-          intro hrt
-          have hrs : s.rebound = false := by
-            split at hf
-            · cases hf; simpa [State.setCall] using hrt
-            · cases hf
-          obtain ⟨hcr, hall⟩ := h hrs
-          have ci := hall i c hci
-          have hd0 : c.doneCount = 0 := by
-            have := ci.why; have := ci.le1
-            rcases Nat.eq_zero_or_pos c.doneCount with h0 | h0
-            · exact h0
-            · have h1 : c.doneCount = 1 := by omega
-              rcases ci.why h1 with h2 | h2
-              · rw [hg.1] at h2; cases h2
-              · exact absurd hg.2 h2
-          rw [complete_first (c := { c with stat := 102 }) hd0] at hf
+        · rename_i c2 cr hcomp
           cases hf
-          refine ⟨rfl, ?_⟩
+          unfold complete at hcomp
+          simp only [hd0, if_true, Option.some.injEq, Prod.mk.injEq] at hcomp
+          obtain ⟨rfl, rfl⟩ := hcomp
+          refine ⟨by simpa [State.setCall] using hcr, ?_⟩
           simp only [State.setCall]
           refine forall_set hall ?_
-          obtain ⟨a1, a2, a3, a4, a5, a6, a7, a8, a9, a10, a11, a12⟩ := ci
+          obtain ⟨a1, a2, a3, a4, a5, a6, a7, a8, a9, a10, a11, a12, a13⟩ := ci
           constructor <;> (try simp_all) <;> (try omega)
-        · cases hf; exact ainv_same h id rfl rfl
-      · cases hf
+        · cases hf
+      · rw [if_neg hd] at hf
+        cases hf
+        refine ainv_upd h hci rfl ?_
+        intro hcr ci
+        obtain ⟨a1, a2, a3, a4, a5, a6, a7, a8, a9, a10, a11, a12, a13⟩ := ci
+        refine ⟨by simpa [State.setCall] using hcr, ?_⟩
+        constructor <;> (try simp_all) <;> (try omega)
     · cases hf
-  | discFinish =>
-    simp only [] at hf
-    split at hf
-    · cases hf; exact ainv_same h id rfl rfl
+  · cases hf
+
+theorem ainv_readerEof {s t : State} (h : AInv s) (hf : fire s .readerEof = some t) : AInv t := by
+  unfold fire at hf
+  split at hf
+  · cases hf
+  rename_i hcrash
+  simp only [] at hf
+  split at hf
+  · split at hf
+    · cases hf; exact ainv_same h rfl rfl
     · cases hf
-  | hDone i =>
-    simp only [] at hf
+  · cases hf
+
+theorem ainv_discLoad {s t : State} (h : AInv s) (hf : fire s .discLoad = some t) : AInv t := by
+  unfold fire at hf
+  split at hf
+  · cases hf
+  rename_i hcrash
+  simp only [] at hf
+  split at hf
+  · split at hf <;> (cases hf; exact ainv_same h rfl rfl)
+  · cases hf
+
+theorem ainv_discStore {s t : State} (h : AInv s) (hf : fire s .discStore = some t) : AInv t := by
+  unfold fire at hf
+  split at hf
+  · cases hf
+  rename_i hcrash
+  simp only [] at hf
+  split at hf
+  · split at hf <;> (cases hf; exact ainv_same h rfl rfl)
+  · cases hf
+
+theorem ainv_discCtxWait {s t : State} (todo0 : List Nat) (h : AInv s) (hf : fire s (.discCtxWait todo0) = some t) : AInv t := by
+  unfold fire at hf
+  split at hf
+  · cases hf
+  rename_i hcrash
+  simp only [] at hf
+  split at hf
+  · split at hf
+    · cases hf; exact ainv_same h rfl rfl
+    · cases hf
+  · cases hf
+
+theorem ainv_discPick {s t : State} (h : AInv s) (hf : fire s .discPick = some t) : AInv t := by
+  unfold fire at hf
+  split at hf
+  · cases hf
+  rename_i hcrash
+  simp only [] at hf
+  split at hf
+  · cases hf; exact ainv_same h rfl rfl
+  · split at hf
+    · split at hf <;> (cases hf; exact ainv_same h rfl rfl)
+    · cases hf; exact ainv_same h rfl rfl
+  · cases hf
+
+theorem ainv_discVisit {s t : State} (h : AInv s) (hf : fire s .discVisit = some t) : AInv t := by
+  unfold fire at hf
+  split at hf
+  · cases hf
+  rename_i hcrash
+  simp only [] at hf
+  split at hf
+  · rename_i act i todo hrpc
     split at hf
     · rename_i c hci
       split at hf
-      · rename_i hmu
+      · cases hf
+      rename_i hmu
+      have hmu' : c.mu = .free := by simpa using hmu
+      split at hf
+      · rename_i hg
         unfold AInv
-        intro hrt
-        have hrs : s.rebound = false := by
-          split at hf
-          · cases hf; simpa [State.setCall] using hrt
-          · cases hf
-        obtain ⟨hcr, hall⟩ := h hrs
+        obtain ⟨hcr, hall⟩ := h
         have ci := hall i c hci
-        have hd0 : c.doneCount = 0 := ci.hpre hmu
-        rw [complete_first (c := { c with stat := if c.stat = 0 then c.rstat else c.stat }) hd0] at hf
+        have hd0 : c.doneCount = 0 := by
+          have := ci.why; have := ci.le1
+          rcases Nat.eq_zero_or_pos c.doneCount with h0 | h0
+          · exact h0
+          · have h1 : c.doneCount = 1 := by omega
+            rcases ci.why h1 with h2 | h2
+            · rw [hg.1] at h2; cases h2
+            · exact absurd hg.2 h2
+        rw [complete_first (c := { c with stat := 102 }) hd0] at hf
         cases hf
         refine ⟨rfl, ?_⟩
         simp only [State.setCall]
         refine forall_set hall ?_
-        obtain ⟨a1, a2, a3, a4, a5, a6, a7, a8, a9, a10, a11, a12⟩ := ci
+        obtain ⟨a1, a2, a3, a4, a5, a6, a7, a8, a9, a10, a11, a12, a13⟩ := ci
         constructor <;> (try simp_all) <;> (try omega)
-      · cases hf
+      · cases hf; exact ainv_same h rfl rfl
     · cases hf
-  | hUnlock i =>
-    simp only [] at hf
+  · cases hf
+
+theorem ainv_discFinish {s t : State} (h : AInv s) (hf : fire s .discFinish = some t) : AInv t := by
+  unfold fire at hf
+  split at hf
+  · cases hf
+  rename_i hcrash
+  simp only [] at hf
+  split at hf
+  · cases hf; exact ainv_same h rfl rfl
+  · cases hf
+
+theorem ainv_hDone {s t : State} (i : Nat) (h : AInv s) (hf : fire s (.hDone i) = some t) : AInv t := by
+  unfold fire at hf
+  split at hf
+  · cases hf
+  rename_i hcrash
+  simp only [] at hf
+  split at hf
+  · rename_i c hci
     split at hf
-    · rename_i c hci
-      split at hf
-      · rename_i hmu
-        cases hf
-        refine ainv_upd h id hci rfl ?_
-        intro _ hcr ci
-        obtain ⟨a1, a2, a3, a4, a5, a6, a7, a8, a9, a10, a11, a12⟩ := ci
-        refine ⟨hcr, ?_⟩
-        constructor <;> (try simp_all) <;> (try omega)
-      · cases hf
+    · rename_i hmu
+      unfold AInv
+      obtain ⟨hcr, hall⟩ := h
+      have ci := hall i c hci
+      have hd0 : c.doneCount = 0 := ci.hpre hmu
+      rw [complete_first (c := { c with stat := if c.stat = 0 then c.replyStat else c.stat }) hd0] at hf
+      cases hf
+      refine ⟨rfl, ?_⟩
+      simp only [State.setCall]
+      refine forall_set hall ?_
+      obtain ⟨a1, a2, a3, a4, a5, a6, a7, a8, a9, a10, a11, a12, a13⟩ := ci
+      constructor <;> (try simp_all) <;> (try omega)
     · cases hf
-  | hOther =>
-    simp only [] at hf
+  · cases hf
+
+theorem ainv_hUnlock {s t : State} (i : Nat) (h : AInv s) (hf : fire s (.hUnlock i) = some t) : AInv t := by
+  unfold fire at hf
+  split at hf
+  · cases hf
+  rename_i hcrash
+  simp only [] at hf
+  split at hf
+  · rename_i c hci
     split at hf
+    · rename_i hmu
+      cases hf
+      refine ainv_upd h hci rfl ?_
+      intro hcr ci
+      obtain ⟨a1, a2, a3, a4, a5, a6, a7, a8, a9, a10, a11, a12, a13⟩ := ci
+      refine ⟨hcr, ?_⟩
+      constructor <;> (try simp_all) <;> (try omega)
     · cases hf
-    · cases hf; exact ainv_same h id rfl rfl
-  | closeCtxWait =>
-    simp only [] at hf
-    split at hf
-    · split at hf
-      · cases hf; exact ainv_same h id rfl rfl
-      · cases hf
+  · cases hf
+
+theorem ainv_hOther {s t : State} (h : AInv s) (hf : fire s .hOther = some t) : AInv t := by
+  unfold fire at hf
+  split at hf
+  · cases hf
+  rename_i hcrash
+  simp only [] at hf
+  split at hf
+  · cases hf
+  · cases hf; exact ainv_same h rfl rfl
+
+theorem ainv_closeCtxWait {s t : State} (h : AInv s) (hf : fire s .closeCtxWait = some t) : AInv t := by
+  unfold fire at hf
+  split at hf
+  · cases hf
+  rename_i hcrash
+  simp only [] at hf
+  split at hf
+  · split at hf
+    · cases hf; exact ainv_same h rfl rfl
     · cases hf
-  | closeCallWait =>
-    simp only [] at hf
-    split at hf
-    · split at hf
-      · cases hf; exact ainv_same h id rfl rfl
-      · cases hf
+  · cases hf
+
+theorem ainv_closeCallWait {s t : State} (h : AInv s) (hf : fire s .closeCallWait = some t) : AInv t := by
+  unfold fire at hf
+  split at hf
+  · cases hf
+  rename_i hcrash
+  simp only [] at hf
+  split at hf
+  · split at hf
+    · cases hf; exact ainv_same h rfl rfl
     · cases hf
+  · cases hf
+
+theorem ainv_step {s t : State} {l : Label} (h : AInv s) (hf : fire s l = some t) : AInv t := by
+  cases l with
+  | issue veto ctxDone tooBig bytesRes cap => exact ainv_issue veto ctxDone tooBig bytesRes cap h hf
+  | frame f => exact ainv_frame f h hf
+  | lose => exact ainv_lose h hf
+  | close => exact ainv_close h hf
+  | store i => exact ainv_store i h hf
+  | prewrite i => exact ainv_prewrite i h hf
+  | write i o => exact ainv_write i o h hf
+  | failDone i => exact ainv_failDone i h hf
+  | unlock i => exact ainv_unlock i h hf
+  | read => exact ainv_read h hf
+  | bind => exact ainv_bind h hf
+  | readerEof => exact ainv_readerEof h hf
+  | discLoad => exact ainv_discLoad h hf
+  | discStore => exact ainv_discStore h hf
+  | discCtxWait todo0 => exact ainv_discCtxWait todo0 h hf
+  | discPick => exact ainv_discPick h hf
+  | discVisit => exact ainv_discVisit h hf
+  | discFinish => exact ainv_discFinish h hf
+  | hDone i => exact ainv_hDone i h hf
+  | hUnlock i => exact ainv_hUnlock i h hf
+  | hOther => exact ainv_hOther h hf
+  | closeCtxWait => exact ainv_closeCtxWait h hf
+  | closeCallWait => exact ainv_closeCallWait h hf
 
 theorem ainv_reach {s : State} (r : Reachable s) : AInv s := by
   induction r with
@@ -418,11 +557,13 @@ def muW : Mu → Nat
 
 def callW (c : Call) : Nat := pcW c.pc + muW c.mu
 
-def rpcW (n : Nat) : RPc → Nat
+def rpcW (n : Nat) (st : SS) : RPc → Nat
   | .reading => 2 * n + 9
   | .bindWait _ _ _ => 2 * n + 12
   | .discLoad => 2 * n + 8
-  | .discStore => 2 * n + 7
+  | .discStore => match st with
+    | .ok => 2 * n + 7
+    | _ => 2 * n + 9      -- the compare-and-swap will fail and the reader loads again
   | .discCtxWait _ => 2 * n + 6
   | .discLoop _ todo => 2 * todo.length + 3
   | .discLock _ _ todo => 2 * todo.length + 4
@@ -430,7 +571,7 @@ def rpcW (n : Nat) : RPc → Nat
   | .stopped => 0
 
 def cpcW : CPc → Nat
-  | .ctxWait => 2 | .callWait => 1 | _ => 0
+  | .ctxWait => 4 | .callWait => 3 | _ => 0
 
 def sumW : List Call → Nat
   | [] => 0
@@ -438,7 +579,7 @@ def sumW : List Call → Nat
 
 /-- strictly decreases with every internal step; external events may raise it. -/
 def measure (s : State) : Nat :=
-  sumW s.calls + 5 * s.inq.length + rpcW s.calls.length s.rpc + cpcW s.cpc + s.otherH
+  sumW s.calls + 5 * s.inq.length + rpcW s.calls.length s.status s.rpc + cpcW s.cpc + s.otherH
 
 theorem sumW_set {l : List Call} {i : Nat} {c c' : Call} (h : l[i]? = some c) :
     sumW (l.set i c') + callW c = sumW l + callW c' := by
@@ -534,13 +675,14 @@ theorem measure_step {s t : State} {l : Label} (hl : l.internal = true) (hf : fi
         · cases hf; exact key s _ rfl rfl hpc' rfl (Or.inr rfl)
         · cases hf
       split at hf
+      · split at hf
+        · cases hf; exact key s _ rfl rfl hpc' rfl (Or.inr rfl)
+        · cases hf
+      split at hf
       · cases hf; exact key s _ rfl rfl hpc' rfl (Or.inl rfl)
       · cases hf; exact key _ _ rfl rfl hpc' rfl (Or.inr rfl)
       · split at hf
         · cases hf; exact key s _ rfl rfl hpc' rfl (Or.inr rfl)
-        · cases hf
-      · split at hf
-        · cases hf; exact key s _ rfl rfl hpc' rfl (Or.inl rfl)
         · cases hf
       · cases hf
     · cases hf
@@ -595,22 +737,32 @@ theorem measure_step {s t : State} {l : Label} (hl : l.internal = true) (hf : fi
         · rw [if_pos hmu'] at hf; cases hf
         rw [if_neg hmu'] at hf
         have hmu' : c.mu = .free := by simpa using hmu'
-        by_cases hd : ((if c.bytesRes = true then Dec.ok else dec) = Dec.errNil ∨
-            (if c.bytesRes = true then Dec.ok else dec) = Dec.panic) ∨ s.status.goon = false
+        by_cases hre : c.hasReply = true ∨ 1 ≤ c.doneCount
+        · rw [if_pos hre] at hf
+          simp only [State.spawnOther] at hf
+          split at hf <;> (cases hf; simp [measure, rpcW, hrpc]) <;> omega
+        rw [if_neg hre] at hf
+        by_cases hd : (effDec c dec = Dec.errNil ∨ effDec c dec = Dec.panic) ∨ s.status.goon = false
         · rw [if_pos hd] at hf
-          cases hf
-          have := measure_setCall (s := { s with rebound := s.rebound || c.hasReply || decide (1 ≤ c.doneCount), leaked := true, rpc := .discLoad })
-            (c' := { c with mu := .reader, hasReply := true, rstat := rstat }) hci
-          simp [callW, muW, hmu'] at this
-          have e : measure { s with rebound := s.rebound || c.hasReply || decide (1 ≤ c.doneCount), leaked := true, rpc := .discLoad } + 4 = measure s := by
-            simp [measure, rpcW, hrpc]; omega
-          omega
+          split at hf
+          · rename_i c2 cr hcomp
+            cases hf
+            obtain ⟨e1, e2⟩ := complete_callW hcomp
+            have := measure_setCall (s := { s with leaked := s.leaked || cr, rpc := .discLoad })
+              (c' := { c2 with mu := if cr = true then Mu.reader else Mu.free }) hci
+            have hw : callW { c2 with mu := if cr = true then Mu.reader else Mu.free } = pcW c.pc := by
+              cases cr <;> simp [callW, muW, e1]
+            have hw0 : callW c = pcW c.pc := by simp [callW, muW, hmu']
+            have e : measure { s with leaked := s.leaked || cr, rpc := .discLoad } + 4 = measure s := by
+              simp [measure, rpcW, hrpc]; omega
+            omega
+          · cases hf
         · rw [if_neg hd] at hf
           cases hf
-          have := measure_setCall (s := { s with rebound := s.rebound || c.hasReply || decide (1 ≤ c.doneCount), rpc := .reading })
-            (c' := { c with mu := .hPre, hasReply := true, rstat := rstat }) hci
+          have := measure_setCall (s := { s with rpc := .reading })
+            (c' := { c with hasReply := true, rstat := rstat, rerr := (effDec c dec).isErr, mu := .hPre }) hci
           simp [callW, muW, hmu'] at this
-          have e : measure { s with rebound := s.rebound || c.hasReply || decide (1 ≤ c.doneCount), rpc := .reading } + 3 = measure s := by
+          have e : measure { s with rpc := .reading } + 3 = measure s := by
             simp [measure, rpcW, hrpc]; omega
           omega
       · cases hf
@@ -630,7 +782,15 @@ theorem measure_step {s t : State} {l : Label} (hl : l.internal = true) (hf : fi
   | discStore =>
     simp only [] at hf
     split at hf
-    · cases hf; simp [measure, rpcW, *]
+    · rename_i hrpc
+      split at hf
+      · rename_i hst
+        cases hf; simp [measure, rpcW, hrpc, hst]
+      · rename_i hst
+        cases hf
+        have : rpcW s.calls.length s.status .discStore = 2 * s.calls.length + 9 := by
+          cases hs : s.status <;> simp_all [rpcW]
+        simp [measure, hrpc, rpcW]
     · cases hf
   | discCtxWait todo0 =>
     simp only [] at hf
@@ -723,7 +883,11 @@ theorem measure_step {s t : State} {l : Label} (hl : l.internal = true) (hf : fi
     simp only [] at hf
     split at hf
     · split at hf
-      · cases hf; simp [measure, cpcW, *]
+      · cases hf
+        -- the status word changes under a reader that may sit before its compare-and-swap
+        have hw : rpcW s.calls.length .activeClosed s.rpc ≤ rpcW s.calls.length s.status s.rpc + 2 := by
+          cases s.rpc <;> cases s.status <;> simp [rpcW]
+        simp [measure, cpcW, *]; omega
       · cases hf
     · cases hf
 
